@@ -67,7 +67,10 @@ func (c *cluster) tplLagSnap(rt *rapid.T) {
 		lag = flrs[len(flrs)-k:]
 	}
 	held := false
-	holdPoint := []string{"snap.begin", "snap.premeta", "snap.fsmdone"}[rapid.IntRange(0, 2).Draw(rt, "holdPoint")]
+	holdPoint := []string{"snap.begin", "snap.begin", "snap.premeta", "snap.fsmdone"}[rapid.IntRange(0, 3).Draw(rt, "holdPoint")]
+	// keepHeld: the parked snapshot request outlives the installation (its state
+	// machine request is only sent afterwards)
+	keepHeld := holdPoint == "snap.begin" && rapid.Bool().Draw(rt, "keepHeld")
 	if rapid.IntRange(0, 2).Draw(rt, "heldLocalSnap") == 0 {
 		held = true
 		c.step(vAct{A: "hold", N: lag[0], S: holdPoint})
@@ -101,10 +104,10 @@ func (c *cluster) tplLagSnap(rt *rapid.T) {
 	c.burst(rt, ldr, rapid.IntRange(25, 70).Draw(rt, "entries"), rapid.IntRange(40, 160).Draw(rt, "pad"))
 	c.step(vAct{A: "snap", N: ldr, K: 0})
 	c.step(vAct{A: "adv", T: 1500})
-	if rapid.Bool().Draw(rt, "moreAfterSnap") {
+	if !(held && keepHeld) && rapid.Bool().Draw(rt, "moreAfterSnap") {
 		c.burst(rt, ldr, rapid.IntRange(1, 15).Draw(rt, "more"), 30)
 	}
-	if held && rapid.Bool().Draw(rt, "releaseBeforeInstall") {
+	if held && !keepHeld && rapid.Bool().Draw(rt, "releaseBeforeInstall") {
 		c.step(vAct{A: "unhold", N: lag[0], S: holdPoint})
 		held = false
 	}
@@ -112,7 +115,7 @@ func (c *cluster) tplLagSnap(rt *rapid.T) {
 	// to send it) is parked between reading its label and opening its file, while
 	// the leader takes a newer snapshot whose retention retires the older one
 	openHeld := false
-	if !c.blackbox && rapid.IntRange(0, 3).Draw(rt, "holdSnapshotOpen") == 0 {
+	if !c.blackbox && !(held && keepHeld) && rapid.IntRange(0, 3).Draw(rt, "holdSnapshotOpen") == 0 {
 		openHeld = true
 		c.step(vAct{A: "hold", N: ldr, S: "snapopen.meta"})
 	}
@@ -132,16 +135,45 @@ func (c *cluster) tplLagSnap(rt *rapid.T) {
 		}
 		c.step(vAct{A: "unhold", N: ldr, S: "snapopen.meta"})
 	}
-	for i := 0; i < 4 && !c.failed(); i++ {
+	if held && keepHeld {
+		// release right after the installation, before anything else reaches the node
+		okBefore := c.stats.count("wire-install-ok")
+		for i := 0; i < 40 && c.stats.count("wire-install-ok") == okBefore && !c.failed(); i++ {
+			c.step(vAct{A: "adv", T: 100})
+		}
+	}
+	for i := 0; i < 4 && !c.failed() && !(held && keepHeld); i++ {
 		c.step(vAct{A: "adv", T: 1100})
-		if held && rapid.IntRange(0, 2).Draw(rt, "releaseNow") == 0 {
+		if held && !keepHeld && rapid.IntRange(0, 2).Draw(rt, "releaseNow") == 0 {
 			c.step(vAct{A: "unhold", N: lag[0], S: holdPoint})
 			held = false
 		}
 	}
 	if held {
+		// sometimes the released snapshot dies while its file is half written
+		dies := !c.blackbox && (keepHeld || rapid.IntRange(0, 2).Draw(rt, "diesInPersist") == 0)
+		if dies {
+			c.step(vAct{A: "crash", N: lag[0], S: "fsm.persist", K: 1, B: rapid.Bool().Draw(rt, "fin")})
+		}
+		if keepHeld {
+			c.stats.class("tpl-lagsnap-stale-snapshot-request")
+			if r := c.rf(lag[0]); r != nil {
+				if si, _ := r.snaps.latest(); si > 0 && r.fsm.index == si {
+					c.stats.class("tpl-lagsnap-stale-snapshot-request-at-installed-index")
+				} else if si == 0 {
+					c.stats.class("tpl-lagsnap-stale-snapshot-request-no-install-yet")
+				} else if r.fsm.index > si {
+					c.stats.class("tpl-lagsnap-stale-snapshot-request-beyond-installed-index")
+				}
+			}
+		}
 		c.step(vAct{A: "unhold", N: lag[0], S: holdPoint})
 		c.step(vAct{A: "adv", T: 1100})
+		if n := c.nodes[lag[0]]; dies && n != nil && n.status == nodeDown {
+			c.stats.class("tpl-lagsnap-died-in-persist")
+			c.step(vAct{A: "restart", N: lag[0]})
+			c.step(vAct{A: "adv", T: 2000})
+		}
 	}
 	if fsmHeld {
 		c.step(vAct{A: "unhold", N: lag[0], S: "fsm.apply"})
